@@ -57,6 +57,8 @@ const KNOWN_RULES: &[&str] = &[
     "parse_lit",
     "map_field",
     "cut_chain",
+    "error_cause",
+    "havoc_iter",
 ];
 
 pub fn apply(repo: &str, req: &ItemReq, f: &mut FnUnderEdit) -> Result<(), String> {
@@ -221,6 +223,21 @@ pub fn apply(repo: &str, req: &ItemReq, f: &mut FnUnderEdit) -> Result<(), Strin
         v.visit_block_mut(&mut f.block);
         let n = v.n;
         f.fire("as_deref", n);
+    }
+
+    // R27 `cause: <boxed error>` in an error struct literal -> `cause: vx_cause()`
+    if has("error_cause") {
+        let mut v = ErrorCause { n: 0 };
+        v.visit_block_mut(&mut f.block);
+        let n = v.n;
+        f.fire("error_cause", n);
+    }
+    // R17 iterator-adaptor chains ending in collect() -> vx_havoc()
+    if has("havoc_iter") {
+        let mut v = HavocIter { n: 0 };
+        v.visit_block_mut(&mut f.block);
+        let n = v.n;
+        f.fire("havoc_iter", n);
     }
 
     // R17b cut a request-builder chain after `.M(..)`: the rest (sending, status check, JSON decoding) becomes one stub
@@ -643,6 +660,47 @@ impl syn::parse::Parse for VecRepeat {
             return Err(input.error("trailing"));
         }
         Ok(VecRepeat { elem, len })
+    }
+}
+
+// ---------------------------------------------------------------- R27 / R17
+struct ErrorCause {
+    n: usize,
+}
+impl VisitMut for ErrorCause {
+    fn visit_expr_struct_mut(&mut self, st: &mut syn::ExprStruct) {
+        for f in st.fields.iter_mut() {
+            if let syn::Member::Named(id) = &f.member {
+                if id == "cause" {
+                    f.expr = syn::parse_quote!(vx_cause());
+                    f.colon_token = Some(Default::default());
+                    self.n += 1;
+                    continue;
+                }
+            }
+            self.visit_expr_mut(&mut f.expr);
+        }
+    }
+}
+struct HavocIter {
+    n: usize,
+}
+fn chain_has(e: &syn::Expr, names: &[&str]) -> bool {
+    match e {
+        syn::Expr::MethodCall(m) => names.contains(&m.method.to_string().as_str()) || chain_has(&m.receiver, names),
+        _ => false,
+    }
+}
+impl VisitMut for HavocIter {
+    fn visit_expr_mut(&mut self, e: &mut syn::Expr) {
+        if let syn::Expr::MethodCall(m) = e {
+            if m.method == "collect" && chain_has(&m.receiver, &["iter", "into_iter"]) {
+                *e = syn::parse_quote!(vx_havoc());
+                self.n += 1;
+                return;
+            }
+        }
+        visit_mut::visit_expr_mut(self, e);
     }
 }
 
